@@ -63,6 +63,7 @@ theorem skel_storedSessionLoader_refreshSessionIfNeeded_ok : skel_storedSessionL
   "defer",
   "for !lockObtained",
   "return errors.New(\"timeout obtaining session lock\")",
+  "errors.New",
   "session.ObtainLock",
   "if err != nil && !errors.Is(err, sessionsapi.ErrLockNotObtained)",
   "return fmt.Errorf(\"error occurred while trying to obtain lock: %v\",",
@@ -78,6 +79,7 @@ theorem skel_storedSessionLoader_refreshSessionIfNeeded_ok : skel_storedSessionL
   "return fmt.Errorf(\"could not load session: %v\", err)",
   "if freshSession == nil",
   "return errors.New(\"session no longer exists, it may have been remov",
+  "errors.New",
   "if !needsRefresh(s.refreshPeriod, session)",
   "needsRefresh",
   "return nil",
